@@ -797,7 +797,8 @@ MANIFEST = {
             "callee's wire and the failure at the caller are compared with expectations derived "
             "from the property statement (URI, args, kwargs, exact class or generic ApplicationError, "
             "exactly one outcome, nothing escaping onMessage)."
-            " The grid is repeated with a payload codec active on both sides (the ERROR travels encoded: envelope complete, inner URI equals the envelope's) and contains a class under two stacked @wamp.error decorators.",
+            " The grid is repeated with a payload codec active on both sides (the ERROR travels encoded: envelope complete, inner URI equals the envelope's) and contains a class under two stacked @wamp.error decorators."
+            " A class raised once before the callee define()s it carries the registered URI afterwards.",
     "note": "Trusted: harness/wamp_b2b.py scripted router (relays ERROR verbatim) and transport "
             "(serialization failure -> SerializationError like the WebSocket/RawSocket transports). "
             "ApplicationError's own reserved keyword names are modelled as message details. Only the "
